@@ -6,7 +6,7 @@
    oracle.  At extraction the oracles are instantiated by tables computed with Python's `re`.
 
    The model is a model of the code that exists: it reproduces hidc's behaviour on every input
-   `SourceCode.from_string` can produce, including the three places where hidc leaves the
+   `SourceCode.from_string` can produce, including the one place left where hidc leaves the
    LexerError discipline (see `crash`).
 
    Shape of the implementation that is mirrored:
@@ -45,6 +45,12 @@ Definition pinned_reader_order : list string :=
 
 Definition pinned_int_reader_cases : list (string * Z) :=
   [ ("hex_literal", 16); ("oct_literal", 8); ("bin_literal", 2); ("dec_literal", 10) ]%string.
+
+Definition pinned_int_reader_guards : list (string * string) :=
+  [ ("hex_literal", ""); ("oct_literal", ""); ("bin_literal", "");
+    ("dec_literal", "ValueError") ]%string.
+
+Definition pinned_chr_excepts : list string := [ "ValueError"; "OverflowError" ]%string.
 
 Definition pinned_flavors : list (string * list Z) :=
   [ ("NONE", []); ("YOU", [64]); ("DEFEAT", [33]) ]%string.
@@ -126,6 +132,10 @@ Lemma reader_order_pinned : reader_order = pinned_reader_order.
 Proof. reflexivity. Qed.
 Lemma int_reader_cases_pinned : int_reader_cases = pinned_int_reader_cases.
 Proof. reflexivity. Qed.
+Lemma int_reader_guards_pinned : int_reader_guards = pinned_int_reader_guards.
+Proof. reflexivity. Qed.
+Lemma chr_excepts_pinned : chr_excepts = pinned_chr_excepts.
+Proof. reflexivity. Qed.
 Lemma flavors_pinned : flavors = pinned_flavors.
 Proof. reflexivity. Qed.
 Lemma reader_uses_pinned : reader_uses = pinned_reader_uses.
@@ -162,14 +172,15 @@ Inductive errkind :=
 | EUnclosedChar
 | EUnclosedString
 | EUnicodeInChar                 (* 'Unicode is not allowed in character literals, ...' *)
-| EBadFlavorIdent (f : flavor).  (* 'Invalid {flavor.name} identifier' *)
+| EBadFlavorIdent (f : flavor)   (* 'Invalid {flavor.name} identifier' *)
+| EIntTooLarge.                  (* 'Integer literal too large': decimal literal with more than
+                                    4300 digits (CPython's int-string conversion limit; the
+                                    ValueError of int() is caught since /repo 0d6dc46) *)
 
-(* Exceptions that are *not* LexerErrors (hidc leaks them; they carry no position). *)
+(* Exceptions that are *not* LexerErrors (hidc leaks them; they carry no position).  Only one is
+   left: it needs a str with a lone surrogate, which SourceCode.from_file cannot produce. *)
 Inductive crash :=
-| COverflowChr                   (* chr(cp) with cp >= 2^31: OverflowError *)
-| CEncodeRaw                     (* a raw surrogate code point in a literal: UnicodeEncodeError *)
-| CIntDigits.                    (* decimal literal with more than 4300 digits: ValueError
-                                    (CPython's default int-string conversion limit) *)
+| CEncodeRaw.                    (* a raw surrogate code point in a literal: UnicodeEncodeError *)
 
 Definition int_max_str_digits : Z := 4300.
 
@@ -454,7 +465,7 @@ Definition read_int (cur : list Z) : rres :=
   | Some (v, _, r) => RTok (TInt v) r
   | None =>
   match read_dec cur with
-  | Some (v, n, r) => if int_max_str_digits <? n then RCrash CIntDigits else RTok (TInt v) r
+  | Some (v, n, r) => if int_max_str_digits <? n then RErr EIntTooLarge r else RTok (TInt v) r
   | None => RNone
   end end end end.
 
@@ -493,9 +504,9 @@ Definition read_unicode_escape (after_u : list Z) : eres :=
             match r' with
             | cl :: r'' =>
                 if cl =? 125 then
+                  (* chr(cp): ValueError / OverflowError are both caught (/repo 4ec1d5f) *)
                   if cp <? 1114112 then encode_escaped cp r''
-                  else if cp <? 2147483648 then EErr (EBadCodepoint cp) r''
-                  else ECrash COverflowChr
+                  else EErr (EBadCodepoint cp) r''
                 else EErr EBadUnicodeEscape after_u
             | [] => EErr EBadUnicodeEscape after_u
             end
